@@ -97,58 +97,67 @@ Section Bridge.
   Qed.
 End Bridge.
 
+Lemma rooted_of r0 m : rooted_mode r0 m -> rooted r0 m.
+Proof. intros H. exact H. Qed.
+
 (* the never-failing handler *)
-Lemma c01_moving_nofail cfg r0 h :
-  c_fail_at cfg = None -> c_incl cfg = false -> f_new (c_filter cfg) = true -> f_undo (c_filter cfg) = true ->
+Lemma c01_moving_nofail cfg r0 m h :
+  c_fail_at cfg = None -> rooted_mode r0 m -> f_new (c_filter cfg) = true -> f_undo (c_filter cfg) = true ->
   moving_scope_b r0 h = true ->
-  let t := fk_run cfg (fs_init (LExcl r0)) h in
+  let t := fk_run cfg (fs_init m) h in
   length t = length h /\ Forall (fun x => snd x = ROk) t /\
-  c01_discipline_b (LExcl r0) t = true /\ c01_refeed_b [] h t = true /\ c01_error_b (c_fail_at cfg) 0 t = true.
+  c01_discipline_b m t = true /\ c01_refeed_b [] h t = true /\ c01_error_b (c_fail_at cfg) 0 t = true.
 Proof.
-  intros Hnofail Hincl Hnew Hundo Hscope.
+  intros Hnofail Hm Hnew Hundo Hscope.
   destruct (scope_parts r0 h Hscope) as (_ & _ & Hr0 & _).
-  exact (moving_lib_run h r0 cfg Hnofail Hnew Hundo Hincl
+  exact (moving_lib_run h r0 cfg Hnofail Hnew Hundo
            (bridge_id r0 h Hscope) (bridge_uniq r0 h Hscope) (bridge_up r0 h Hscope) Hr0
            (fun y Hy => proj2 (proj2 (mb_parts r0 h Hscope y Hy)))
            (fun x Hx => proj1 (proj2 (mb_parts r0 h Hscope x Hx)))
            (bridge_decl r0 h Hscope)
-           h (fun b Hb => Hb)).
+           m h (rooted_of r0 m Hm) (fun b Hb => Hb)).
 Qed.
 
-Lemma c02_moving_nofail cfg r0 h :
-  c_fail_at cfg = None -> c_incl cfg = false -> f_new (c_filter cfg) = true -> f_undo (c_filter cfg) = true ->
+Lemma c02_moving_nofail cfg r0 m h :
+  c_fail_at cfg = None -> rooted_mode r0 m -> f_new (c_filter cfg) = true -> f_undo (c_filter cfg) = true ->
   f_irr (c_filter cfg) = true -> moving_scope_b r0 h = true ->
-  c02_b (LExcl r0) h (fk_run cfg (fs_init (LExcl r0)) h) = true.
+  c02_b m h (fk_run cfg (fs_init m) h) = true.
 Proof.
-  intros Hnofail Hincl Hnew Hundo Hirr Hscope.
+  intros Hnofail Hm Hnew Hundo Hirr Hscope.
   destruct (scope_parts r0 h Hscope) as (_ & _ & Hr0 & _).
-  exact (moving_lib_c02 h r0 cfg Hnofail Hnew Hundo Hirr Hincl
+  exact (moving_lib_c02 h r0 cfg Hnofail Hnew Hundo Hirr
            (bridge_id r0 h Hscope) (bridge_uniq r0 h Hscope) (bridge_up r0 h Hscope) Hr0
            (fun y Hy => proj2 (proj2 (mb_parts r0 h Hscope y Hy)))
            (fun x Hx => proj1 (proj2 (mb_parts r0 h Hscope x Hx)))
            (bridge_decl r0 h Hscope)
-           h (fun b Hb => Hb)).
+           m h (rooted_of r0 m Hm) (fun b Hb => Hb)).
 Qed.
+
+Lemma rooted_root_lib r0 m t : rooted_mode r0 m -> root_lib m t = ri r0 /\ root_ref m t = r0.
+Proof. intros [-> | ->]; split; reflexivity. Qed.
+
+Lemma rooted_ncalls r0 m : rooted_mode r0 m -> ncalls (fs_init m) = 0.
+Proof. intros [-> | ->]; reflexivity. Qed.
 
 Lemma c01_moving_lib_proved : c01_moving_lib_statement.
 Proof.
-  intros cfg r0 h Hincl Hnew Hundo Hscope.
+  intros cfg r0 m h Hm Hnew Hundo Hscope.
   destruct (c_fail_at cfg) as [k|] eqn:Hf.
   - (* the handler fails at call k: cut the never-failing run *)
-    destruct (c01_moving_nofail (nofail cfg) r0 h eq_refl Hincl Hnew Hundo Hscope) as (Hlen & Hok & Hd & Hr & He).
-    unfold c01_discipline_b, root_lib in Hd.
-    destruct (apply_all (ri r0) [] (all_events (fk_run (nofail cfg) (fs_init (LExcl r0)) h))) as [S'|] eqn:Happ; [|discriminate].
-    destruct (run_fail_c01 cfg k Hf (ri r0) h (fs_init (LExcl r0)) [] []) as ((S2 & Happ2) & Hre2 & Herr2 & Hres2).
-    + cbn. lia.
+    destruct (c01_moving_nofail (nofail cfg) r0 m h eq_refl Hm Hnew Hundo Hscope) as (Hlen & Hok & Hd & Hr & He).
+    unfold c01_discipline_b in Hd. rewrite (proj1 (rooted_root_lib r0 m _ Hm)) in Hd.
+    destruct (apply_all (ri r0) [] (all_events (fk_run (nofail cfg) (fs_init m) h))) as [S'|] eqn:Happ; [|discriminate].
+    destruct (run_fail_c01 cfg k Hf (ri r0) h (fs_init m) [] []) as ((S2 & Happ2) & Hre2 & Herr2 & Hres2).
+    + rewrite (rooted_ncalls r0 m Hm). lia.
     + exact Hok.
     + exists S'. exact Happ.
     + exact Hr.
     + unfold c01_statement. split; [|split; [exact Hres2 | intros H; discriminate]].
       split; [|split].
-      * unfold c01_discipline_b, root_lib. rewrite Happ2. reflexivity.
+      * unfold c01_discipline_b. rewrite (proj1 (rooted_root_lib r0 m _ Hm)), Happ2. reflexivity.
       * exact Hre2.
-      * rewrite Hf. exact Herr2.
-  - destruct (c01_moving_nofail cfg r0 h Hf Hincl Hnew Hundo Hscope) as (Hlen & Hok & Hd & Hr & He).
+      * rewrite Hf. rewrite (rooted_ncalls r0 m Hm) in Herr2. exact Herr2.
+  - destruct (c01_moving_nofail cfg r0 m h Hf Hm Hnew Hundo Hscope) as (Hlen & Hok & Hd & Hr & He).
     unfold c01_statement. rewrite Hf in *. split; [repeat split; assumption|]. split.
     + eapply Forall_impl; [|exact Hok]. cbn beta. auto.
     + intros _. split; assumption.
@@ -156,16 +165,17 @@ Qed.
 
 Lemma c02_moving_lib_proved : c02_moving_lib_statement.
 Proof.
-  intros cfg r0 h Hincl Hnew Hundo Hirr Hscope. unfold c02_statement.
+  intros cfg r0 m h Hm Hnew Hundo Hirr Hscope. unfold c02_statement.
   destruct (c_fail_at cfg) as [k|] eqn:Hf.
-  - pose proof (c02_moving_nofail (nofail cfg) r0 h eq_refl Hincl Hnew Hundo Hirr Hscope) as HN.
-    destruct (c01_moving_nofail (nofail cfg) r0 h eq_refl Hincl Hnew Hundo Hscope) as (_ & Hok & _).
-    unfold c02_b, root_ref in *.
-    destruct (fin_trace (ri r0) r0 (mkFM [] 0 r0 false [] []) h (fk_run (nofail cfg) (fs_init (LExcl r0)) h)) as [mN|] eqn:EN; [|discriminate].
-    destruct (run_fail_c02 cfg k Hf (ri r0) r0 h (fs_init (LExcl r0)) (mkFM [] 0 r0 false [] [])) as [m' Hm'].
-    + cbn. lia.
+  - pose proof (c02_moving_nofail (nofail cfg) r0 m h eq_refl Hm Hnew Hundo Hirr Hscope) as HN.
+    destruct (c01_moving_nofail (nofail cfg) r0 m h eq_refl Hm Hnew Hundo Hscope) as (_ & Hok & _).
+    unfold c02_b in *. rewrite (proj2 (rooted_root_lib r0 m (fk_run (nofail cfg) (fs_init m) h) Hm)) in HN.
+    rewrite (proj2 (rooted_root_lib r0 m (fk_run cfg (fs_init m) h) Hm)).
+    destruct (fin_trace (ri r0) r0 (mkFM [] 0 r0 false [] []) h (fk_run (nofail cfg) (fs_init m) h)) as [mN|] eqn:EN; [|discriminate].
+    destruct (run_fail_c02 cfg k Hf (ri r0) r0 h (fs_init m) (mkFM [] 0 r0 false [] [])) as [m' Hm'].
+    + rewrite (rooted_ncalls r0 m Hm). lia.
     + exact Hok.
     + exists mN. exact EN.
     + rewrite Hm'. reflexivity.
-  - exact (c02_moving_nofail cfg r0 h Hf Hincl Hnew Hundo Hirr Hscope).
+  - exact (c02_moving_nofail cfg r0 m h Hf Hm Hnew Hundo Hirr Hscope).
 Qed.
